@@ -15,9 +15,14 @@ import (
 	"time"
 )
 
-const (
-	VerifDir = "/verif"
-)
+// VerifDir is where evidence, replays and known-findings.json live (VERIF_DIR overrides it for
+// development runs that must not disturb the registered tree).
+var VerifDir = func() string {
+	if d := os.Getenv("VERIF_DIR"); d != "" {
+		return d
+	}
+	return "/verif"
+}()
 
 // Exit codes of a check.
 const (
@@ -271,8 +276,12 @@ func (r *Run) Finish() int {
 		"violations":  len(r.violations),
 	}
 	b, _ := json.MarshalIndent(doc, "", " ")
-	os.MkdirAll(filepath.Join(VerifDir, "evidence"), 0o755)
-	if err := os.WriteFile(filepath.Join(VerifDir, "evidence", r.ID+".json"), b, 0o644); err != nil {
+	evDir := "evidence"
+	if !isPropertyID(r.ID) {
+		evDir = "evidence-tools" // checks beyond the listed properties (not in MANIFEST.json)
+	}
+	os.MkdirAll(filepath.Join(VerifDir, evDir), 0o755)
+	if err := os.WriteFile(filepath.Join(VerifDir, evDir, r.ID+".json"), b, 0o644); err != nil {
 		fmt.Printf("INCONCLUSIVE: cannot write evidence: %v\n", err)
 		return ExitInconclusive
 	}
@@ -285,4 +294,9 @@ func (r *Run) Finish() int {
 		fmt.Printf("HELD property=%s tier=%s seed=%d wall=%.1fs\n", r.ID, r.Tier, r.Seed, time.Since(r.Start).Seconds())
 		return ExitHeld
 	}
+}
+
+// isPropertyID: C01 ... C99.
+func isPropertyID(id string) bool {
+	return len(id) == 3 && id[0] == 'C' && id[1] >= '0' && id[1] <= '9' && id[2] >= '0' && id[2] <= '9'
 }
